@@ -126,6 +126,14 @@ def main(argv=None):
     for n in out["notes"]:
         print("NOTE " + n)
 
+    # how often each specification action / API operation was exercised by the recorded runs
+    phases, ops = {}, {}
+    for c in recs:
+        for r in c["runs"]:
+            ops[r["op"]] = ops.get(r["op"], 0) + 1
+            for e in r.get("ev", []):
+                phases[e["ph"]] = phases.get(e["ph"], 0) + 1
+    cov["actions_exercised"] = {"phase_events": phases, "operations": ops}
     cov["samples"] = plans.samples(prop, recs)
     cov["distinct_nontrivial"] = nontrivial["count"]
     cov["evaluations"] = len(recs)
